@@ -22,3 +22,6 @@ Proof. intros E. unfold Qround_he. rewrite (Qfloor_comp _ _ E). cbv zeta. assert
 Ltac zq_q := unfold iz, Z.sub; repeat first [rewrite inject_Z_plus | rewrite inject_Z_mult | rewrite inject_Z_opp]; first [reflexivity | ring | field].
 Ltac zq_leaf := cbn [negb andb orb]; first [reflexivity | exfalso; lia | (repeat f_equal; first [reflexivity | lia]) | (apply Qround_he_comp; zq_q) | (apply Qtrunc_comp; zq_q) | (apply Qfloor_comp; zq_q)].
 Ltac kernel_eq_zq := intros; first [timeout 30 reflexivity | (autounfold with kernels; cbv beta zeta; zq_cases; zq_leaf)].
+
+(* the assertions of a translated function never fire (generated lemma t_<name>__asserts_hold) *)
+Ltac kernel_assert f := intros; repeat match goal with x : option Z |- _ => destruct x end; unfold f; autounfold with kernels; cbv beta zeta; zq_cases; cbn [negb andb orb]; repeat match goal with |- (if ?b then _ else _) = true => destruct b end; first [reflexivity | exfalso; lia].
